@@ -22,6 +22,7 @@ var checks = map[string]struct {
 	"C25": {"exploration", c25},
 	"C27": {"exploration", c27},
 	"C28": {"exploration", c28},
+	"C47": {"exploration", c47},
 }
 
 func main() {
